@@ -872,7 +872,32 @@ func judgeCase(c *Ctx, o *Obligation, dir string, qi int, rc *replayCase, obs ma
 	panicked, _ := obs["panic"].(string)
 	kind := o.Kind
 	if panicked != "" {
-		return true, "real code panics on this input: " + panicked, nil
+		// a panic reproduces the failure only if it is the kind of failure the obligation guards against
+		match := false
+		switch {
+		case strings.HasPrefix(kind, "safe-idx"):
+			match = strings.Contains(panicked, "index out of range")
+		case strings.HasPrefix(kind, "safe-slice"):
+			match = strings.Contains(panicked, "slice bounds out of range")
+		case strings.HasPrefix(kind, "safe-nil"):
+			match = strings.Contains(panicked, "nil pointer") || strings.Contains(panicked, "nil map")
+		case strings.HasPrefix(kind, "safe-div"):
+			match = strings.Contains(panicked, "divide by zero")
+		case strings.HasPrefix(kind, "safe-assert"):
+			match = strings.Contains(panicked, "interface conversion")
+		case strings.HasPrefix(kind, "safe-make"):
+			match = strings.Contains(panicked, "makeslice") || strings.Contains(panicked, "out of range")
+		case strings.HasPrefix(kind, "safe-panic"):
+			match = !strings.Contains(panicked, "runtime error")
+		case strings.HasPrefix(kind, "pre#"):
+			match = true
+		case strings.HasPrefix(kind, "post#"):
+			match = rc.source == "model"
+		}
+		if match {
+			return true, "real code panics on this input: " + panicked, nil
+		}
+		return false, "real code panics on this input (" + panicked + "), but not with the failure this obligation guards against", nil
 	}
 	switch {
 	case strings.HasPrefix(kind, "post#"):
